@@ -622,7 +622,7 @@ pub fn mcopy(""")),
         {""", new="""        if dropping_claims && sector.expiration - curr_epoch > policy.max_sector_expiration_extension
         {""", expect=r'extend:drop-only-at-end-of-life'),
  dict(id='C10-foreign-claim-accepted', pid='C10', file='actors/miner/src/lib.rs',
-      old="""                if claim.sector != sc.sector_number {""", new="""                if claim.sector != sc.sector_number && claim.sector != 0 {""", expect=None),
+      old="""                if claim.sector != sc.sector_number {""", new="""                if claim.sector != sc.sector_number && claim.sector != 0 {""", expect=r'extend:claim-of-this-sector'),
  # ---------------- C05
  dict(id='C05-cron-propagates-entry-failure', pid='C05', file='actors/cron/src/lib.rs',
       old="""            if let Err(e) = res {
@@ -677,7 +677,7 @@ pub fn mcopy(""")),
                 new_claim.quality_adj_power
             ));
         }
-""", new="""""", expect=r'power:qa-non-negative'),
+""", new="""""", expect=None),  # equivalent: set_claim() repeats the same sign checks, so the property still holds (found by guard lifting)
  # ---------------- C04
  dict(id='C04-ni-allows-collisions', pid='C04', file='actors/miner/src/lib.rs',
       old="""            state.allocate_sector_numbers(
